@@ -125,16 +125,26 @@ def check(led):
                          signature='raise:%s:%s' % (e.tname, 'fresh' if fresh else 'warm'), replay=replay(route, n2d, fresh, geom, flow))
                 continue
             got, want, size = out[1]
-            wg, tg = pycheck.terms_of(got)
-            ww, tw = pycheck.terms_of(want)
+            def parts_of(v):
+                wrap, terms = pycheck.terms_of(v)
+                out_ = []
+                for k_, t in terms:
+                    w_ = [x_ for x_ in wrap if x_ != 'csr']
+                    while isinstance(t, Opaque) and t.kind in ('symmetrized', 'skew-symmetrized', 'csr'):
+                        if t.kind != 'csr':
+                            w_.append(t.kind)
+                        t = t.f['of']
+                    out_.append((k_, w_, t))
+                return out_
+            pg, pw = parts_of(got), parts_of(want)
             probs = []
-            if wg != ww:
-                probs.append('completion %s, the panel method gives %s' % (wg, ww))
-            if len(tg) != len(tw):
-                probs.append('%d kernel terms, the panel method gives %d' % (len(tg), len(tw)))
-            for (kg, g), (kw_, w) in zip(tg, tw):
+            if len(pg) != len(pw):
+                probs.append('%d terms, the panel method gives %d' % (len(pg), len(pw)))
+            for (kg, wg, g), (kw_, ww, w) in zip(pg, pw):
                 if kg != kw_:
                     probs.append('term scaled by %s, expected %s' % (kg, kw_))
+                if wg != ww:
+                    probs.append('completion %s, the panel method gives %s' % (wg, ww))
                 if not (isinstance(w, Opaque) and w.kind == 'kernel'):
                     probs.append('reference is not a kernel term')
                     continue
